@@ -190,6 +190,7 @@ class Run:
         self.violations = []      # (key, description, replay path)
         self.known_hits = {}
         self.violation_keys = {}
+        self.files_written = 0
         self.evaluations = 0
         self.nontrivial = set()
         self.samples = []
@@ -205,6 +206,10 @@ class Run:
         self.known = [k for k in load_known_findings().get("open", []) if k.get("property") == pid]
         os.makedirs(EVID, exist_ok=True)
         os.makedirs(REPLAYS, exist_ok=True)
+        if not self.replay:
+            for fn in os.listdir(REPLAYS):
+                if fn.startswith(pid + "-"):
+                    os.remove(os.path.join(REPLAYS, fn))
 
     @property
     def quick(self):
@@ -237,7 +242,7 @@ class Run:
                     print(f"KNOWN-FINDING: property={self.pid} {k['what']}")
                 return False
         self.violation_keys[key] = self.violation_keys.get(key, 0) + 1
-        if self.violation_keys[key] > 3 or len(self.violations) >= 40:
+        if self.violation_keys[key] > 2 or self.files_written >= 200:
             self.violations.append((key, description, None))     # counted, not printed again
             return True
         h = hashlib.sha1((key + description).encode()).hexdigest()[:10]
@@ -245,6 +250,7 @@ class Run:
         with open(path, "w") as f:
             json.dump(dict(property=self.pid, key=key, description=description, replay=replay,
                            tier=self.tier, seed=self.seed), f, indent=1, default=_jd)
+        self.files_written += 1
         print(f"VIOLATION property={self.pid} replay={path}")
         print(f"  {key}: {description}"[:600])
         self.violations.append((key, description, path))
